@@ -48,6 +48,7 @@ FL = lambda n, *a: ("f", n) + a
 O = lambda n: ("o", n)
 V = ("v", "v", "A")
 VB = ("v", "vb", "B")
+VSB = ("v", "v", "B")  # named like V, typed like VB
 PX = ("p", "x")
 PI = ("p", "i")
 
@@ -82,6 +83,15 @@ PROFILES = [
         "arities": (2,),
         "qvars": ((("vb", "B"),), (("v", "A"),)),
         "N": {"quick": 1, "thorough": 2},
+    },
+    {
+        # two variables with ONE name and different types: binding one must not shield the other
+        "name": "quant-shadow",
+        "leaves": [FL("q", V), FL("q", VSB), ("eq", VSB, V), FL("q", PX)],
+        "ops": ["and", "exists", "forall"],
+        "arities": (2,),
+        "qvars": ((("v", "B"),), (("v", "A"),)),
+        "N": {"quick": 2, "thorough": 2},
     },
     {
         "name": "num",
